@@ -369,7 +369,8 @@ fn strategy(_t: Tier) -> BoxedStrategy<Case> {
         .prop_map(|(solver, ((problem, y0), at_rest), t0, ldt, min_exp, tol, tlen)| Case { solver, problem, y0, t0, ldt, min_exp, tol, tlen, at_rest, relax_len: 0.0, cplx: vec![], cap_limited: false });
     let relaxing = (proptest::sample::select(&ADAPTIVE[..]), problem_relaxing(), prop_oneof![1 => Just(0.0), 3 => gen::fl(-2.0, 2.0)], gen::fl(0.05, 0.5), gen::fl(6.0, 10.0), gen::logu(-9.0, -3.0), gen::fl(10.0, 60.0))
         .prop_map(|(solver, (problem, y0, mu), t0, ldt, min_exp, tol, relax_len)| Case { solver, problem, y0, t0, ldt, min_exp, tol, tlen: relax_len / mu, at_rest: true, relax_len, cplx: vec![], cap_limited: false });
-    let comp = || (gen::fl(-1.0, 0.5), gen::fl(-3.0, 3.0), gen::fl(-2.0, 2.0), gen::fl(-2.0, 2.0));
+    // a quarter of the complex components start exactly at rest (y0 = 0: every error estimate is exactly zero)
+    let comp = || (gen::fl(-1.0, 0.5), gen::fl(-3.0, 3.0), prop_oneof![3 => (gen::fl(-2.0, 2.0), gen::fl(-2.0, 2.0)), 1 => Just((0.0, 0.0))]).prop_map(|(a, w, (re, im))| (a, w, re, im));
     let complex = (proptest::sample::select(&ADAPTIVE[..]), proptest::collection::vec(comp(), 1..=2), prop_oneof![1 => Just(0.0), 3 => gen::fl(-2.0, 2.0)], gen::fl(0.05, 0.5), gen::fl(6.0, 10.0), gen::logu(-9.0, -3.0), gen::fl(1.0, 10.0)).prop_map(
         |(solver, cplx, t0, ldt, min_exp, tol, tlen)| Case { solver, problem: Problem::Lin { blocks: vec![], mix: vec![], center: vec![] }, y0: vec![], t0, ldt, min_exp, tol, tlen, at_rest: false, relax_len: 0.0, cplx, cap_limited: false },
     );
@@ -390,7 +391,7 @@ pub fn run(opts: &Opts) -> i32 {
     }
     spec.cases = opts.tier.pick(12_000, 400_000);
     spec.essential = vec![("estimator-limited", 0.2), ("at-rest-or-relaxing", 0.1), ("generic", 0.1), ("bdf2", 0.08), ("rk23", 0.08), ("relaxing-long", 0.1), ("complex-field", 0.05), ("relaxed-tail", 0.03), ("cap-limited", 0.04), ("exactly-at-rest", 0.015)];
-    spec.rule = "generated: six adaptive solvers x problem family P incl. solutions at rest / relaxing to a steady state x tolerance 10^[-9,-3] x L dt_max in [0.05,0.5] (L = max of the Lipschitz constant and the forcing frequencies) x dt_min = dt_max 10^-[6,10] (a third of the plain cases 10^-[10,20], 1e-100 or 1e-300: a minimum step that is effectively switched off) x interval length 1-10 (shortened so that T L tol^(-1/p) <= 2e4; 3e5 for the long relaxations); the user function counts its calls and enforces the hard budget K (T L tol^(-1/p) + T/dt_max) + 400 (p = 4,2,4,2,6,2 for RK45, RK23, Adams5, Adams3, BDF6, BDF2; K = 100, 100, 100, 100, 300, 800). A sixth of the cases are long relaxations (every mode decays, start at distance O(1) from the steady state, 10-60 e-foldings of the slowest mode); for those the work is also held to K' x the integral of max(L (|y(t)-y*|/tol)^(1/p), 1/dt_max) dt along the exact solution (never more than the unit above; K' = 60, 40, 40, 30, 100, 300), and once the exact solution stays within 1e-3 tol of the steady state (tail of >= 50 maximal steps) the evaluations made at later times are held to K'' per maximal step + 400 (K'' = 18, 12, 12, 9, 21, 30: three times the measured evaluations per maximal step), i.e. the steps must regrow to the maximum once the solution has relaxed. Solutions exactly at rest are held to the same per-step counts + 200 (largest measured start-up overhead 62). One case in fourteen is cap-limited (decaying linear problem, maximum step so small that the local error at it is below tol/1000): the whole solve is held to K''' = 18, 12, 12, 9, 23, 33 evaluations per maximal step + 400. One case in thirteen is a complex-valued decoupled linear problem y_k' = (a_k + i w_k) y_k (dimension 1-2) held to the same budget. Oracle: the solve returns without error, ends at the ending time with a C01-valid path, and stays within the budget; at least one evaluation per maximal step. Non-trivial = estimator-limited path (a step below 0.98 dt_max) or the at-rest/relaxing class. Distinct = distinct case JSON.".into();
+    spec.rule = "generated: six adaptive solvers x problem family P incl. solutions at rest / relaxing to a steady state x tolerance 10^[-9,-3] x L dt_max in [0.05,0.5] (L = max of the Lipschitz constant and the forcing frequencies) x dt_min = dt_max 10^-[6,10] (a third of the plain cases 10^-[10,20], 1e-100 or 1e-300: a minimum step that is effectively switched off) x interval length 1-10 (shortened so that T L tol^(-1/p) <= 2e4; 3e5 for the long relaxations); the user function counts its calls and enforces the hard budget K (T L tol^(-1/p) + T/dt_max) + 400 (p = 4,2,4,2,6,2 for RK45, RK23, Adams5, Adams3, BDF6, BDF2; K = 100, 100, 100, 100, 300, 800). A sixth of the cases are long relaxations (every mode decays, start at distance O(1) from the steady state, 10-60 e-foldings of the slowest mode); for those the work is also held to K' x the integral of max(L (|y(t)-y*|/tol)^(1/p), 1/dt_max) dt along the exact solution (never more than the unit above; K' = 60, 40, 40, 30, 100, 300), and once the exact solution stays within 1e-3 tol of the steady state (tail of >= 50 maximal steps) the evaluations made at later times are held to K'' per maximal step + 400 (K'' = 18, 12, 12, 9, 21, 30: three times the measured evaluations per maximal step), i.e. the steps must regrow to the maximum once the solution has relaxed. Solutions exactly at rest are held to the same per-step counts + 200 (largest measured start-up overhead 62). One case in fourteen is cap-limited (decaying linear problem, maximum step so small that the local error at it is below tol/1000): the whole solve is held to K''' = 18, 12, 12, 9, 23, 33 evaluations per maximal step + 400. One case in thirteen is a complex-valued decoupled linear problem y_k' = (a_k + i w_k) y_k (dimension 1-2, a quarter of the components starting exactly at rest) held to the same budget. Oracle: the solve returns without error, ends at the ending time with a C01-valid path, and stays within the budget; at least one evaluation per maximal step. Non-trivial = estimator-limited path (a step below 0.98 dt_max) or the at-rest/relaxing class. Distinct = distinct case JSON.".into();
     spec.max_shrink_iters = 300;
     run_spec(spec, opts)
 }
